@@ -1902,7 +1902,7 @@ impl XmlDocumentTypeDeclaration {
                     }
                     parser::DeclarationMarkup::Entity(v) => match v {
                         parser::DeclarationEntity::GeneralEntity(v) => {
-                            let entity = XmlEntity::node(v, declaration_id, context);
+                            let entity = XmlEntity::node(v, declaration_id, context)?;
                             declaration.borrow_mut().push_child(entity);
                         }
                         parser::DeclarationEntity::ParameterEntity(_) => {
@@ -2573,7 +2573,7 @@ impl XmlEntity {
         value: &parser::DeclarationGeneralEntity,
         parent_id: usize,
         context: &Context,
-    ) -> Rc<XmlItem> {
+    ) -> error::Result<Rc<XmlItem>> {
         let entity = node(XmlEntity {
             name: value.name.to_string(),
             values: None,
@@ -2586,7 +2586,10 @@ impl XmlEntity {
 
         let (values, system_identifier, public_identifier, notation_name) = match &value.def {
             parser::DeclarationEntityDef::EntityValue(v) => {
-                let values = v.iter().map(|v| XmlEntityValue::new(v)).collect();
+                let values = v
+                    .iter()
+                    .map(XmlEntityValue::new)
+                    .collect::<error::Result<Vec<XmlEntityValue>>>()?;
                 (Some(values), None, None, None)
             }
             parser::DeclarationEntityDef::ExternalId(v, n) => {
@@ -2602,7 +2605,7 @@ impl XmlEntity {
 
         let node = Rc::new(entity.clone().into());
         entity.borrow().context.add_item(&node);
-        node
+        Ok(node)
     }
 
     pub fn name(&self) -> &str {
@@ -2666,16 +2669,22 @@ impl fmt::Display for XmlEntityValue {
 }
 
 impl XmlEntityValue {
-    pub fn new(value: &parser::EntityValue<'_>) -> Self {
+    pub fn new(value: &parser::EntityValue<'_>) -> error::Result<Self> {
         match value {
             parser::EntityValue::ParameterEntityReference(v) => {
-                XmlEntityValue::Parameter(v.to_string())
+                Ok(XmlEntityValue::Parameter(v.to_string()))
             }
             parser::EntityValue::Reference(v) => match v {
-                parser::Reference::Character(v, n) => XmlEntityValue::Character(v.to_string(), *n),
-                parser::Reference::Entity(v) => XmlEntityValue::Entity(v.to_string()),
+                parser::Reference::Character(v, n) => {
+                    match n {
+                        10 => char_from_char10(v)?,
+                        _ => char_from_char16(v)?,
+                    };
+                    Ok(XmlEntityValue::Character(v.to_string(), *n))
+                }
+                parser::Reference::Entity(v) => Ok(XmlEntityValue::Entity(v.to_string())),
             },
-            parser::EntityValue::Text(v) => XmlEntityValue::Text(v.to_string()),
+            parser::EntityValue::Text(v) => Ok(XmlEntityValue::Text(v.to_string())),
         }
     }
 }
